@@ -6,7 +6,6 @@ sys.path.insert(0, VERIF)
 props = [json.loads(l) for l in open(os.path.join(VERIF, 'properties.jsonl'))]
 NA = {
     'C17': 'a property of histories of next() calls under an advancing clock; the decidable structural part (guard/advance pairing) has behaviour-preserving variants a structural rule would flag, and the month step needs the C01 bijection (DESIGN section 5)',
-    'C18': 'correctness of the transition search and of POSIX-TZ rule evaluation against RFC 8536 is a numerical specification outside the abstract domains; crash freedom of the same code is C19 (DESIGN section 5)',
 }
 checks, na = [], []
 for p in props:
